@@ -55,6 +55,8 @@ def float_cases(thorough):
     if not thorough:
         flagsets = flagsets[:8]
         vals = vals[:12]
+    # around the fixed / scientific boundary of %g (exponent = precision)
+    vals = vals + [1000000.0, 1234567.0, 999000.0, 100000.0, 1234.0, 1000.0, 999.0, 42.0, 10.0, 9.0, 12345678.0, -1000000.0]
     for fl, w, p, c, v in itertools.product(flagsets, widths, precs, convs, vals):
         pp = 6 if p is None else p
         kind = "f" if c in "fF" else "e"
@@ -124,7 +126,13 @@ def run(chk):
                          "crash in std.format" if r["k"] == "crash" else "valid floating conversion fails")
             continue
         if c in "gG":
-            continue    # %g: std.jsonnet counts digits differently from C/Python; only crash-freedom is required
+            # %g: std.jsonnet counts decimals, not significant digits, for |x| < 1, and differs for `#` and precisions 0 / 1;
+            # decided here: |x| >= 1 (or 0), no `#`, precision none / 3 / 6, no mantissa roll-over - there the fixed-vs-scientific
+            # rule (scientific iff exponent >= precision) and the digits are CPython's
+            pp = 6 if p is None else p
+            rolled = ("%.*e" % (max(pp - 1, 0), abs(v))).startswith("10") or float("%.*e" % (max(pp - 1, 0), abs(v))) >= 10 ** (math.floor(math.log10(abs(v))) + 1) if v else False
+            if not ((abs(v) >= 1 or v == 0) and "#" not in fl and p in (None, 3, 6) and not rolled):
+                continue
         neg = math.copysign(1.0, v) < 0
         mag = ("%" + ("#" if "#" in fl else "") + ("" if p is None else f".{p}") + c) % abs(v)
         lines.append({"ev": "Float", "k": "val", "alt": "#" in fl, "zero": "0" in fl, "left": "-" in fl, "blank": " " in fl,
